@@ -52,6 +52,10 @@ CHECKS = {
    text="spec/Values.tla defines every operator as a total function on tagged values (ints, floats as exact dyadic rationals, strings, bools, null, plus an array and an object for the no-crash clause) with results value / error / inexact-float / unspecified, one Truthy operator for all eight boolean contexts, and the coherence laws; TLC checks that the oracle itself satisfies the laws (EqSym, NeCompl, StrictCompl, SpaceshipAgrees, DivAlwaysFloat) over the whole pool. Every (operator, a, b), every truthiness value and every law x pair is an initial state printed as a case; each case is one script run in a subprocess worker (a crash or hang of the interpreter is a violation of the no-crash clause).",
    note="Trusted: === against a literal of the expected value as the exactness test. Not decided: 64-bit boundary arithmetic and non-dyadic float results (TLC: 32-bit ints, no floats) -- only their kind is checked.",
    tech="TLA+ spec of operator semantics (Values.tla) with law invariants checked by TLC; every case replayed as a script"),
+ "C04": dict(cat="model_checking", ref="§5 C04",
+   text="spec/Expr.tla holds the operator table as data (24 binary operators on 13 levels with associativity, prefix ! - ~), MinPrint / FullPrint of expression trees and a precedence-climbing ParseByTable; TLC checks on every tree of the pairs, unary and triples families (1152 + 291 + 69120 trees) that parsing the minimal printing by the table gives the tree back (ParsePrintRoundTrip), i.e. that exactly the redundant parentheses were dropped. Every pair and unary tree and a sample (thorough: a third) of the triples is rendered in three styles (variables, spaced literals, literals glued to the preceding operator) with six operand tuples and both printings are evaluated by the real interpreter; they must agree. The other grouping of each pair is evaluated too, to count the operator pairs whose groupings are actually told apart by some tuple.",
+   note="Trusted: the real interpreter's evaluation of fully parenthesised expressions as the value oracle (C04 is about grouping only). Ternary, assignment operators and casts are not in the tree model (stated limitation; the cast-precedence defect listed in DESIGN is not covered by this check).",
+   tech="TLA+ spec of the operator table with print/parse round-trip checked by TLC; every tree replayed in minimal and full parenthesisation on the real interpreter"),
 }
 NOT_YET = "check not built yet in this round (planned: TLA+ spec + conformance binding, see DESIGN.md §5)"
 def main():
